@@ -174,7 +174,9 @@ def check_c14(run: Run, prog: Program) -> None:
         "only by intersect, raised as soon as one member of a collection is irreducible); and (E19.polar) the tangent / polar / dual clauses as polynomial "
         "identities for a symbolic symmetric matrix Q and symbolic complex points, in the plane and in 3-space: tangent(p).p and the value contains(p) compares with zero "
         "are p^T Q p; polar(p).r = polar(r).p; the value is_tangent compares with zero for the hyperplane Q p is det Q (p^T Q p), with `inv` read as the adjugate; "
-        "dual(dual(Q)) ~ Q with the dual flag flipped twice. NOT decided: the intersection points of intersect(line), tangents from an outside point, "
+        "dual(dual(Q)) ~ Q with the dual flag flipped twice; (E19.isect) intersect(line) for a non-degenerate conic hands `components` the symmetric product of the two "
+        "points of the line on the conic, as a quadric of the other kind (what `components` returns for such a matrix is C15's E19.comp). NOT decided: intersect in 3-space "
+        "(projection through basis_matrix), the degenerate branch, tangents from an outside point, "
         "collections, the specialised classes' own constructors (C13)."
     )
     quad = prog.cls("QuadricTensor")
@@ -196,6 +198,7 @@ def check_c14(run: Run, prog: Program) -> None:
     npol = _qf.rule_quadric_duality(run, prog)
     run.floor("tangent / polar / dual identities (found, decided or not)", npol, 5)
     run.stats["duality_identities"] = npol
+    run.stats["conic_line_cuts"] = _qf.rule_conic_line(run, prog)
     # is_tangent inherits the verdict of dual through the call graph: listed for the reader
     it = prog.lookup(quad, "is_tangent")
     if it is not None and dual is not None:
